@@ -225,3 +225,191 @@ V("BL5-benign-shared-encode-helper", "C08", None,
    "def _encode_strings(strings):\n    try:\n        encoded = [s.encode(\"utf-8\") for s in strings]\n    except AttributeError:\n        encoded = strings\n    return encoded\n\n\ndef object_data_size(data_type, data_values):\n    if data_type == String:\n        encoded_strings = _encode_strings(data_values)\n"),
   ("writer.py", "def write_string_values(file, strings):\n    try:\n        encoded_strings = [s.encode(\"utf-8\") for s in strings]\n    except AttributeError:\n        # Assume if we can't encode then we already have bytes\n        encoded_strings = strings\n",
    "def write_string_values(file, strings):\n    encoded_strings = _encode_strings(strings)\n"))
+
+# ---------------------------------------------------------------- C01 (TD1, PR1, GR1, UD1, BL1, BL2)
+V("TD1-revert-complex-from-bytes", "C01", "TD1",
+  ("types.py", "class ComplexSingleFloat(ComplexType):", "class ComplexSingleFloat(TdmsType):"))
+V("TD1-timestamp-loses-from-bytes", "C01", "TD1",
+  ("types.py", "    @classmethod\n    def from_bytes(cls, byte_array, endianness=\"<\"):\n        \"\"\" Convert an array of bytes to an array of timestamps\n        \"\"\"\n",
+   "    @classmethod\n    def _from_bytes_unused(cls, byte_array, endianness=\"<\"):\n        \"\"\" Convert an array of bytes to an array of timestamps\n        \"\"\"\n"))
+V("TD1-benign-mixin", "C01", None,
+  ("types.py", "class ComplexType(TdmsType):\n    nptype = None\n", "class _FromBytesMixin(object):\n    pass\n\n\nclass ComplexType(_FromBytesMixin, TdmsType):\n    nptype = None\n"))
+V("BL1-daqmx-scaler-short-read", "C01", "BL1",
+  ("daqmx.py", "        scaler_bytes = open_file.read(20)\n", "        scaler_bytes = open_file.read(16)\n"))
+V("BL1-raw-index-short-read", "C01", "BL1",
+  ("tdms_segment.py", "        index_bytes = f.read(16)\n", "        index_bytes = f.read(12)\n"))
+V("BL2-int16-size-4", "C01", ["BL2", "BL1"],
+  ("types.py", "class Int16(StructType):\n    size = 2\n", "class Int16(StructType):\n    size = 4\n"))
+V("BL2-duplicate-enum", "C01", "BL2",
+  ("types.py", "@tds_data_type(6, np.uint16)", "@tds_data_type(5, np.uint16)"))
+V("BL2-struct-code-mismatch", "C01", "BL2",
+  ("types.py", "class Uint32(StructType):\n    size = 4\n    struct_declaration = \"L\"", "class Uint32(StructType):\n    size = 4\n    struct_declaration = \"l\""))
+V("PR1-groups-in-set", "C01", "PR1",
+  ("tdms.py", "        group_properties = OrderedDict()\n", "        group_properties = set()\n"))
+V("PR1-first-value-wins", "C01", "PR1",
+  ("reader.py", "                for prop, val in properties:\n                    object_metadata.properties[prop] = val\n",
+   "                for prop, val in properties:\n                    object_metadata.properties.setdefault(prop, val)\n"))
+V("PR1-sorted-objects", "C01", "PR1",
+  ("tdms.py", "        for (path_string, obj) in tdms_reader.object_metadata.items():\n            properties = object_properties[path_string]",
+   "        for (path_string, obj) in sorted(tdms_reader.object_metadata.items()):\n            properties = object_properties[path_string]"))
+
+# ---------------------------------------------------------------- C03 (MP1, MP3, TS1, OFS1)
+V("MP1-no-convert-index-chunk", "C03", "MP1",
+  ("tdms.py", "        (chunk, offset) = self._reader.read_channel_chunk_for_index(self.path, index)\n        _convert_channel_data_chunk(chunk, self._raw_timestamps)\n",
+   "        (chunk, offset) = self._reader.read_channel_chunk_for_index(self.path, index)\n"))
+V("MP1-convert-ignores-flag", "C03", "MP1",
+  ("tdms.py", "            _convert_data_chunk(chunk, self._raw_timestamps)\n", "            _convert_data_chunk(chunk, False)\n"))
+V("MP3-index-returns-raw", "C03", "MP3",
+  ("tdms.py", "        scaled_chunk = self._scale_data(chunk)\n", "        scaled_chunk = chunk.data\n"))
+V("MP3-slice-unscaled", "C03", "MP3",
+  ("tdms.py", "            read_data = self.read_data(start, stop - start)\n", "            read_data = self.read_data(start, stop - start, scaled=False)\n"))
+V("MP3-chunk-daqmx-no-error", "C03", "MP3",
+  ("tdms.py", "        elif self._raw_data.scaler_data:\n            raise ValueError(\"Missing scaling information for DAQmx data\")\n        else:\n            return self._raw_data.data\n",
+   "        else:\n            return self._raw_data.data\n"))
+V("TS1-revert-no-type-read", "C03", "TS1",
+  ("tdms.py", "        if self.data_type is None:\n            # Channel has no data in any segment, so there is nothing to read\n            return None\n\n", ""))
+V("TS1-revert-no-type-iter", "C03", "TS1",
+  ("tdms.py", "        if self.data_type is None:\n            # Channel has no data in any segment, so there is nothing to read\n            return\n", ""))
+
+# ---------------------------------------------------------------- C04 (CS1, ES1, CS2, NT1, BD1)
+V("CS1-revert-manual-counter-with-continue", "C04", "CS1",
+  ("reader.py", "        values_read = 0\n        for segment_index, segment in enumerate(self._segments[start_segment:end_segment + 1], start_segment):\n",
+   "        segment_index = start_segment\n        values_read = 0\n        for segment in self._segments[start_segment:end_segment + 1]:\n"),
+  ("reader.py", "                yield _trim_channel_chunk(chunk, skip, trim)\n\n    def read_channel_chunk_for_index",
+   "                yield _trim_channel_chunk(chunk, skip, trim)\n\n            segment_index += 1\n\n    def read_channel_chunk_for_index"))
+V("CS1-benign-manual-counter-all-paths", "C04", None,
+  ("reader.py", "        values_read = 0\n        for segment_index, segment in enumerate(self._segments[start_segment:end_segment + 1], start_segment):\n",
+   "        segment_index = start_segment - 1\n        values_read = 0\n        for segment in self._segments[start_segment:end_segment + 1]:\n            segment_index += 1\n"))
+V("ES1-enumerate-from-zero", "C04", "ES1",
+  ("reader.py", "enumerate(self._segments[start_segment:end_segment + 1], start_segment):", "enumerate(self._segments[start_segment:end_segment + 1]):"))
+V("CS2-scaler-sliced-differently", "C04", "CS2",
+  ("reader.py", "            scale_id: d[skip:len(d) - trim]\n", "            scale_id: d[skip:len(d)]\n"))
+V("NT1-length-truthiness", "C04", "NT1",
+  ("tdms.py", "            if length is None:\n                num_values = len(self) - offset\n", "            if not length:\n                num_values = len(self) - offset\n"))
+V("BD1-read-all-chunks", "C04", "BD1",
+  ("reader.py", "                    segment.read_raw_data_for_channel(self._file, channel_path, chunk_offset, num_chunks)):",
+   "                    segment.read_raw_data_for_channel(self._file, channel_path, 0, segment.num_chunks)):"))
+
+# ---------------------------------------------------------------- C09 (MP2, TM1, CO1, DF1, MP4)
+V("MP2-no-verify-in-channel-read", "C09", "MP2",
+  ("reader.py", "enumerate(self._segments[start_segment:end_segment + 1], start_segment):\n            self._verify_segment_start(segment)\n",
+   "enumerate(self._segments[start_segment:end_segment + 1], start_segment):\n"))
+V("MP2-verify-wrong-tag", "C09", "MP2",
+  ("reader.py", "        expected_tag = b'TDSm'\n        tag = self._file.read(4)", "        expected_tag = b'TDSh'\n        tag = self._file.read(4)"))
+V("CO1-seek-data-offset-on-index", "C09", "CO1",
+  ("reader.py", "                        file.seek(start_position + segment.data_position - segment.position, os.SEEK_SET)\n", "                        file.seek(segment.data_position, os.SEEK_SET)\n"))
+V("CO1-benign-regrouped", "C09", None,
+  ("reader.py", "                        file.seek(start_position + segment.data_position - segment.position, os.SEEK_SET)\n",
+   "                        file.seek(start_position + (segment.data_position - segment.position), os.SEEK_SET)\n"))
+V("DF1-flag-not-forwarded", "C09", "DF1",
+  ("reader.py", "        (position, toc_mask, data_position, next_segment_pos, segment_incomplete) = self._read_lead_in(\n            file, segment_position, is_index_file)",
+   "        (position, toc_mask, data_position, next_segment_pos, segment_incomplete) = self._read_lead_in(\n            file, segment_position)"))
+V("MP4-index-only-inverted", "C09", "MP4",
+  ("reader.py", "        return self._file is None and self._index_file is not None\n", "        return self._index_file is not None\n"))
+V("MP4-no-refusal", "C09", "MP4",
+  ("tdms.py", "        if self._reader.is_index_file_only():\n            raise RuntimeError(\"Data cannot be read from index file only\")\n", ""))
+V("CO1-clamp-with-index-position", "C09", "CO1",
+  ("reader.py", "            if self._data_file_size is not None and next_segment_pos > self._data_file_size:", "            if self._data_file_size is not None and file.tell() > self._data_file_size:"),
+  known_miss=True)
+
+# ---------------------------------------------------------------- C10 (KC1, TD2)
+V("KC1-no-raw-timestamps", "C10", "KC1",
+  ("writer.py", "        file = TdmsFile(source, raw_timestamps=True)\n", "        file = TdmsFile(source)\n"))
+V("KC1-scaled-data", "C10", "KC1",
+  ("writer.py", "                        channel.read_data(scaled=False),\n", "                        channel.read_data(),\n"))
+V("KC1-swapped-names", "C10", "KC1",
+  ("writer.py", "                        group.name,\n                        channel.name,\n", "                        channel.name,\n                        group.name,\n"))
+V("KC1-skip-empty-channels", "C10", "KC1",
+  ("writer.py", "                for channel in group.channels():\n                    new_file.write_segment", "                for channel in group.channels():\n                    if len(channel) == 0:\n                        continue\n                    new_file.write_segment"))
+V("TD2-revert-void-exclusion", "C10", "TD2",
+  ("writer.py", "    return hasattr(obj, 'data') and obj.data_type is not Void\n", "    return hasattr(obj, 'data')\n"))
+V("KC1-benign-keywords", "C10", None,
+  ("writer.py", "        with cls(destination, version=version, index_file=index_file) as new_file:", "        with cls(destination, mode='w', version=version, index_file=index_file) as new_file:"))
+
+# ---------------------------------------------------------------- C19 (CG1, GD1, CH1)
+V("CG1-channel-read-via-full-reader", "C19", "CG1",
+  ("tdms.py", "    def _read_channel_data_chunks(self):\n        if self.data_type is None:\n            # Channel has no data in any segment, so there is nothing to read\n            return\n        for chunk in self._reader.read_raw_data_for_channel(self.path):\n            _convert_channel_data_chunk(chunk, self._raw_timestamps)\n            yield chunk\n",
+   "    def _read_channel_data_chunks(self):\n        if self.data_type is None:\n            return\n        for full in self._reader.read_raw_data():\n            chunk = full.channel_data.get(self.path)\n            if chunk is None:\n                continue\n            _convert_channel_data_chunk(chunk, self._raw_timestamps)\n            yield chunk\n"))
+V("GD1-no-path-test", "C19", "GD1",
+  ("tdms_segment.py", "            elif number_values == obj.number_values:\n                # Seek over data for other channel data\n                current_position += obj.data_size\n",
+   "            elif number_values == obj.number_values:\n                # Read over data for other channel data\n                obj.read_values(file, number_values, self.endianness)\n                current_position = file.tell()\n"))
+V("CH1-fetch-before-cache", "C19", "CH1",
+  ("tdms.py", "            if bounds[0] <= index < bounds[1]:\n", "            if bounds[0] <= index:\n"))
+
+# ---------------------------------------------------------------- C07 / C12 (DTA, IS1, NK1, NK2, TBf, TT1)
+V("DTA-threshold-gt-for-gte", "C07", "DTA",
+  ("writer.py", "    if value >= 2 ** 31 or value < -2 ** 31:\n        return Int64(value)", "    if value > 2 ** 31 or value < -2 ** 31:\n        return Int64(value)"))
+V("DTA-threshold-2-32", "C07", "DTA",
+  ("writer.py", "    if value >= 2 ** 31 or value < -2 ** 31:\n        return Int64(value)", "    if value >= 2 ** 32 or value < -2 ** 31:\n        return Int64(value)"))
+V("DTA-uint64-threshold-2-64", "C07", "DTA",
+  ("writer.py", "    if value >= 2 ** 63:\n        return Uint64(value)", "    if value >= 2 ** 64:\n        return Uint64(value)"))
+V("DTA-benign-hex", "C07", None,
+  ("writer.py", "    if value >= 2 ** 31 or value < -2 ** 31:\n        return Int64(value)", "    if value >= 0x80000000 or value < -0x80000000:\n        return Int64(value)"))
+V("DTA-infer-dtype-uint16-threshold", "C07", "DTA",
+  ("writer.py", "        elif max_value >= 2**15 and min_value >= 0:\n            return np.dtype('uint16')", "        elif max_value >= 2**14 and min_value >= 0:\n            return np.dtype('uint16')"))
+V("IS1-int-before-bool", "C07", "IS1",
+  ("writer.py", "    if isinstance(value, bool) or isinstance(value, np.bool_):\n        return Boolean(value)\n    if isinstance(value, int):\n        return to_int_property_value(value)\n",
+   "    if isinstance(value, int):\n        return to_int_property_value(value)\n    if isinstance(value, bool) or isinstance(value, np.bool_):\n        return Boolean(value)\n"))
+V("IS1-float-as-single", "C07", "IS1",
+  ("writer.py", "    if isinstance(value, float):\n        return DoubleFloat(value)", "    if isinstance(value, float):\n        return SingleFloat(value)"))
+V("NK1-total-microseconds-via-float", "C12", "NK1",
+  ("types.py", "        seconds = int(epoch_delta / np.timedelta64(1, 's'))\n        remainder = epoch_delta - np.timedelta64(seconds, 's')\n",
+   "        total = int(epoch_delta / np.timedelta64(1, 'us'))\n        seconds = total // 10**6\n        remainder = np.timedelta64(total - seconds * 10**6, 'us')\n"))
+V("NK2-array-rounds", "C12", "NK2",
+  ("timestamp.py", "                (self['second_fractions'] / fractions_per_step) * np.timedelta64(1, resolution))", "                np.round(self['second_fractions'] / fractions_per_step) * np.timedelta64(1, resolution))"))
+V("NK2-scalar-floor-division", "C12", "NK2",
+  ("timestamp.py", "                ((self.second_fractions / fractions_per_step) * np.timedelta64(1, resolution)))", "                ((self.second_fractions // fractions_per_step) * np.timedelta64(1, resolution)))"))
+V("TBf-ns-constant", "C12", "TBf",
+  ("timestamp.py", "    'ns': (10 ** -9) / 2 ** -64,", "    'ns': (10 ** -8) / 2 ** -64,"))
+V("TBf-epoch-1970", "C12", "TBf",
+  ("timestamp.py", "EPOCH = np.datetime64('1904-01-01 00:00:00', 's')", "EPOCH = np.datetime64('1970-01-01 00:00:00', 's')"))
+V("TBf-benign-literal", "C12", None,
+  ("timestamp.py", "    's': 1.0 / 2 ** -64,", "    's': float(2 ** 64),"))
+V("TT1-linspace-off-by-one", "C12", "TT1",
+  ("tdms.py", "            offset + (len(self) - 1) * increment,\n", "            offset + len(self) * increment,\n"))
+
+# ---------------------------------------------------------------- C16 (PT1-PT4)
+V("PT1-no-doubling", "C16", "PT1",
+  ("common.py", "        [\"'\" + c.replace(\"'\", \"''\") + \"'\" for c in components]))", "        [\"'\" + c + \"'\" for c in components]))"))
+V("PT1-hand-formatted-group-path", "C16", "PT1",
+  ("writer.py", "        return str(ObjectPath(self.group))\n", "        return \"/'%s'\" % self.group\n"))
+V("PT2-split-path", "C16", "PT2",
+  ("tdms.py", "            path = ObjectPath.from_string(path_string)\n", "            path = ObjectPath(*[p.strip(\"'\") for p in path_string.split('/')[1:]])\n"))
+V("PT3-pair-not-consumed", "C16", "PT3",
+  ("common.py", "                    component += \"'\"\n                    # Consume second \"'\"\n                    next(chars)\n", "                    component += \"'\"\n"))
+V("PT4-channel-data-by-name", "C16", "PT4",
+  ("tdms.py", "                    self._channel_data[channel.path] = get_data_receiver(", "                    self._channel_data[channel.name] = get_data_receiver("))
+V("PT1-benign-doubling-by-hand", "C16", None,
+  ("common.py", "    @property\n    def is_root(self):", "    def _describe(self):\n        return \"group=%r channel=%r\" % (self.group, self.channel)\n\n    @property\n    def is_root(self):"))
+
+# ---------------------------------------------------------------- C18 (TB1-TB5)
+V("TB1-boundary-moved", "C18", ["TB1", "TB3"],
+  ("thermocouples.py", "            applicable_range=Range(630.615, None),", "            applicable_range=Range(630.715, None),"))
+V("TB2-inclusive-flip", "C18", "TB2",
+  ("thermocouples.py", "        return (self.start <= value) & (value < self.end)", "        return (self.start < value) & (value <= self.end)"))
+V("TB2-np-polyval", "C18", "TB2",
+  ("thermocouples.py", "        return poly.polyval(x, self._coefficients)", "        return np.polyval(self._coefficients, x)"))
+V("TB3-forward-digit", "C18", "TB3",
+  ("thermocouples.py", "                0.590404211710E-05,", "                0.590404211701E-05,"))
+V("TB3-benign-reformat-literal", "C18", None,
+  ("thermocouples.py", "                0.590404211710E-05,", "                5.90404211710E-06,"))
+V("TB4-k-maps-to-j", "C18", "TB4",
+  ("scaling.py", "            10073: thermocouples.type_k,", "            10073: thermocouples.type_j,"))
+V("TB5-wrong-branch-factor", "C18", "TB5",
+  ("scaling.py", "            milli_volts = data / 1000.0\n", "            milli_volts = data * 1000.0\n"))
+V("TB5-benign-1e3", "C18", None,
+  ("scaling.py", "            return 1000.0 * self.thermocouple.celsius_to_mv(data)", "            return 1e3 * self.thermocouple.celsius_to_mv(data)"))
+V("TB5-direction-swapped", "C18", "TB5",
+  ("scaling.py", "        if self.scaling_direction == 1:\n            return 1000.0", "        if self.scaling_direction != 1:\n            return 1000.0"))
+
+# ---------------------------------------------------------------- C11 (SR1, TR1, DL1, SB1)
+V("TR1-swapped-dims", "C11", "TR1",
+  ("daqmx.py", "            combined_data = read_interleaved_segment_bytes(file, raw_data_width, chunk_size)", "            combined_data = read_interleaved_segment_bytes(file, chunk_size, raw_data_width)"))
+V("DL1-bit-offset-wrong-modulus", "C11", "DL1",
+  ("daqmx.py", "        bit_offset = self.raw_bit_offset % 8", "        bit_offset = self.raw_bit_offset % 16"))
+V("SB1-no-break", "C11", "SB1",
+  ("daqmx.py", "            updated_buffer_lengths[i] = bytes_remaining // width\n            break\n", "            updated_buffer_lengths[i] = bytes_remaining // width\n            bytes_remaining = 0\n"))
+V("SR1-digital-header-not-routed", "C11", "SR1",
+  ("tdms_segment.py", "        if raw_data_index_header in (FORMAT_CHANGING_SCALER, DIGITAL_LINE_SCALER):\n            return DaqmxSegmentObject(object_path)", "        if raw_data_index_header in (FORMAT_CHANGING_SCALER,):\n            return DaqmxSegmentObject(object_path)"))
+V("BL3-daqmx-metadata-little-endian", "C11", "BL3",
+  ("daqmx.py", "         scaler_vector_length) = _struct_unpack(endianness + 'LQL', metadata_bytes)", "         scaler_vector_length) = _struct_unpack('<LQL', metadata_bytes)"))
